@@ -750,6 +750,7 @@ func (ch *Channel) removeClosedConn(c *Connection) {
 		return
 	}
 
+	verifPoint("chan.removeClosedConn.beforeLock", c.connID)
 	ch.mutable.Lock()
 	delete(ch.mutable.conns, c.connID)
 	ch.mutable.Unlock()
